@@ -17,6 +17,10 @@ CLAIMS = {
          'util::Fd: every handle operation under a CBMC function contract (reference count exact, descriptor closed exactly when the last handle goes or on close(), never twice; unbounded) plus short-history lemmas. cabinet::Cabinet<T>: representation invariant + abstract token->object map effect of alloc/free/update/at/clear checked for every cabinet state up to capacity 8 (bounded stand-in: the union in Cell rules out symbolic capacity); dead tokens stay dead across slot reuse and clear(). ObjectPool and lifetime_tag are not covered.',
          'Trusted: printer, CBMC, std::function / std::vector models, explicit-instantiation driver. Cabinet results are B(capacity 8), not proofs. ObjectPool (variadic placement-new template) outside the printer subset: not covered.',
          'CBMC function contracts (Fd) and bounded symbolic harnesses on the extracted real code (Cabinet)', '6 C08'),
+ 'C09': ('other',
+         'Log front end under unbounded CBMC contracts: Dispatch calls every engaged sink exactly once, in order, with the dispatch lock held; LogPrintfFunc dispatches exactly one record with level clamp and truncation to exactly the configured maximum (marked), text alive at dispatch; AsyncSink front end frames header+text under that lock; AsyncPipe units re-checked.',
+         'Trusted: printer, CBMC, vsnprintf/gettimeofday/syscall contracts, one-thread view. Sink level filter, back-end re-framing, file roll-over and interleavings are not decided.',
+         'CBMC function/loop contracts with ghost lock state on mechanically extracted C', '6 C09'),
  'C10': ('other',
          'AsyncPipe producer, back end and life cycle under unbounded CBMC contracts (one thread visible): bytes handed to buffers once, in order, contiguously; each full buffer delivered to the sink exactly once before reset; lock discipline (guarded-by, lock order, try_lock-only on the producer mutex); cleanup withdraws the stop request and frees everything; initialize accounting.',
          'Trusted: printer, CBMC, size-only container model, Buffer handle contracts restating the Buffer unit, one-thread view (other threads = havoc in wait/join contracts). Interleavings, races and liveness are not decided.',
